@@ -14,7 +14,7 @@ from pyvc.externals import str_to_int, is_int_str
 from pyvc import extworld
 from contracts.world import world
 
-KNOWN = {}     # filled by the check driver from known_findings.json: carve-outs by obligation class
+from pyvc.contracts import KNOWN   # ids of known findings whose failing class is carved out
 
 
 def deflate_obj(ip, name='deflate'):
@@ -60,7 +60,10 @@ class ResetCompressor(Contract):
                                                       (not created or z == created[-1]) and z != old.get(a.self, '_compressobj')))]
         if isinstance(z, ExtObj) and z.key in st.ghost:
             wb = st.ghost[z.key]['wbits']
-            out.append(('deflater-window-within-negotiated-client-max-window-bits', wb <= cw, ('C06',)))
+            goal = wb <= cw
+            if 'C06-client-window-8' in KNOWN:
+                goal = Implies(cw != 8, goal)       # known finding: zlib cannot do an 8-bit raw window
+            out.append(('deflater-window-within-negotiated-client-max-window-bits', goal, ('C06',)))
             out.append(('deflater-window-is-the-negotiated-one-when-zlib-supports-it', Implies(cw >= 9, wb == cw)))
         return out
 
@@ -127,8 +130,10 @@ class DeflateInit(Contract):
         ok = isinstance(zc, ExtObj) and isinstance(zd, ExtObj) and zc.key in st.ghost and zd.key in st.ghost
         out.append(('both-zlib-streams-created', BoolVal(ok)))
         if ok:
-            out.append(('deflater-window-within-negotiated-client-max-window-bits',
-                        st.ghost[zc.key]['wbits'] <= iv(a.compress_wbits), ('C06',)))
+            goal = st.ghost[zc.key]['wbits'] <= iv(a.compress_wbits)
+            if 'C06-client-window-8' in KNOWN:
+                goal = Implies(iv(a.compress_wbits) != 8, goal)
+            out.append(('deflater-window-within-negotiated-client-max-window-bits', goal, ('C06',)))
             out.append(('inflater-window-at-least-server-max-window-bits', st.ghost[zd.key]['wbits'] >= iv(a.decompress_wbits)))
         return out
 
